@@ -1,14 +1,22 @@
 #!/usr/bin/env python3
 """seedsweep.py [name-prefix ...] — run every seeded change under /verif/seeded against the quick check of
 its own property (meta.json "property"; R-* seeds: the property of the fix they revert, from
-known_findings.txt) and write seeded/RESULTS.md.  /repo must be clean; it is restored after each seed."""
+known_findings.txt) and write seeded/RESULTS.md.  each seed is applied to a scratch worktree (VERIF_REPO), never to /repo."""
 import json, os, re, subprocess, sys, glob
-os.environ["VERIF_EVIDENCE_DIR"] = "/verif/.build/seed-evidence"
-V = "/verif"
+os.environ["VERIF_EVIDENCE_DIR"] = os.path.join(os.path.dirname(os.path.dirname(os.path.abspath(__file__))), ".build", "seed-evidence")
+V = os.path.dirname(os.path.dirname(os.path.abspath(__file__)))
 def sh(cmd):
     return subprocess.run(cmd, shell=True, capture_output=True, text=True)
-if sh("git -C /repo status --porcelain").stdout.strip():
-    print("REPO-NOT-CLEAN"); sys.exit(2)
+WT = "/tmp/seedwt-%d" % os.getpid()
+def wt_make():
+    sh("git -C /repo worktree remove --force %s; rm -rf %s" % (WT, WT))
+    return sh("git -C /repo worktree add -q --detach %s HEAD" % WT).returncode == 0
+def wt_drop():
+    import hashlib
+    sh("git -C /repo worktree remove --force %s; rm -rf %s" % (WT, WT))
+    h = hashlib.sha1(os.path.realpath(WT).encode()).hexdigest()[:10]
+    for p in glob.glob(V + "/.build/*" + h + "*"):
+        os.remove(p)
 fixprop = {}
 for l in open(V + "/known_findings.txt"):
     m = re.match(r"fixed: property=(C\d\d) (\w+)", l)
@@ -33,11 +41,10 @@ for d in sorted(glob.glob(V + "/seeded/*/")):
         pid = pid[0]
     if not pid:
         rows.append((name, "?", "NO-PROPERTY", "")); continue
-    r = sh("git -C /repo apply --whitespace=nowarn %s" % patch)
-    if r.returncode != 0:
-        rows.append((name, pid, "PATCH-DOES-NOT-APPLY", "")); continue
+    if not wt_make() or sh("git -C %s apply --whitespace=nowarn %s" % (WT, patch)).returncode != 0:
+        wt_drop(); rows.append((name, pid, "PATCH-DOES-NOT-APPLY", "")); continue
     try:
-        c = sh("cd %s && ./check %s quick" % (V, pid))
+        c = sh("cd %s && VERIF_REPO=%s ./check %s quick" % (V, WT, pid))
         vl = [l for l in c.stdout.split("\n") if l.startswith("VIOLATION")]
         if c.returncode == 1 and vl:
             kind = "detected (correspondence/proof obligation only)" if "no-failing-input-found" in vl[0] else "detected with replay"
@@ -49,7 +56,7 @@ for d in sorted(glob.glob(V + "/seeded/*/")):
         else:
             rows.append((name, pid, "MISSED", c.stdout.strip().split("\n")[-1][:120]))
     finally:
-        sh("git -C /repo checkout -- . && git -C /repo clean -fdq")
+        wt_drop()
     print(rows[-1], flush=True)
 # merge with the rows of seeds that were not run this time
 if pref and os.path.exists(V + "/seeded/RESULTS.md"):
